@@ -90,7 +90,7 @@ class SyncMap:
             fn = node.name
         if isinstance(node, ast.Attribute):
             rw = 'wr' if isinstance(node.ctx, ast.Store) else 'rd'
-            if node.attr in FLAGS and _is_self_attr(node.value, 'state'):
+            if node.attr in FLAGS and isinstance(node.value, ast.Attribute) and node.value.attr == 'state':
                 self._add(name, node.lineno, '%s:%s' % (rw, node.attr), fn)
             elif _is_self_attr(node, '_sock'):
                 par = getattr(node, '_parent', None)
